@@ -352,7 +352,9 @@ def driver_path(name):
 
 # ---------------------------------------------------------------- Rust side
 
-def cargo_build(ctx, pkg, release=False, features=None, rustflags=None, workspace=HARNESS, bin=None, extra_env=None):
+def cargo_build(ctx, pkg, release=False, features=None, rustflags=None, workspace=HARNESS, bin=None, extra_env=None, target_dir=None, label=None):
+    """target_dir: build into this directory (CARGO_TARGET_DIR) and return the executable there — build variants
+    (other RUSTFLAGS) keep their own cache and never invalidate the workspace's"""
     cmd = ["cargo", "build", "--offline", "-q", "-p", pkg]
     if release:
         cmd.append("--release")
@@ -363,6 +365,8 @@ def cargo_build(ctx, pkg, release=False, features=None, rustflags=None, workspac
         env["RUSTFLAGS"] = rustflags
     if extra_env:
         env.update(extra_env)
+    if target_dir is not None:
+        env["CARGO_TARGET_DIR"] = target_dir
     t = time.time()
     for attempt in range(6):
         rc, out = sh(cmd, cwd=workspace, env=env, timeout=3000)
@@ -371,11 +375,307 @@ def cargo_build(ctx, pkg, release=False, features=None, rustflags=None, workspac
             time.sleep(10)
             continue
         break
-    ctx.extra.setdefault("cargo_build_s", {})["%s%s" % (pkg, "-release" if release else "")] = round(time.time() - t, 1)
+    ctx.extra.setdefault("cargo_build_s", {})["%s%s%s" % (pkg, "-release" if release else "", "-" + label if label else "")] = round(time.time() - t, 1)
     if rc != 0:
         tail = [l for l in out.splitlines() if l.strip()][-40:]
         return None, "\n".join(tail)
-    return os.path.join(workspace, "target", "release" if release else "debug", bin or pkg), ""
+    return os.path.join(target_dir or os.path.join(workspace, "target"), "release" if release else "debug", bin or pkg), ""
+
+
+# ---------------------------------------------------------------- build configuration as a dimension
+# A property quantifies over the code HOWEVER IT IS BUILT: `#[cfg(target_feature = "sse4.2")]`, `cfg!(debug_assertions)`,
+# `#[target_feature(enable = ..)]` select different code from the same source, and a harness built one way sees one
+# of them.  cfg_dimensions() finds the configuration predicates the anchored files mention, build_variants() turns them
+# (plus the standing `-C target-cpu=native` build) into extra harness builds the SAME streams and oracles are run on.
+
+def strip_rust_comments(src):
+    """// and (nested) /* */ comments removed; string, raw-string and char literals kept verbatim (a `//` inside a
+    string is not a comment, a `"` inside a comment opens nothing)"""
+    out = []
+    i, n = 0, len(src)
+    while i < n:
+        c = src[i]
+        if src.startswith("//", i):
+            j = src.find("\n", i)
+            i = n if j < 0 else j
+        elif src.startswith("/*", i):
+            depth, i = 1, i + 2
+            while i < n and depth:
+                if src.startswith("/*", i):
+                    depth, i = depth + 1, i + 2
+                elif src.startswith("*/", i):
+                    depth, i = depth - 1, i + 2
+                else:
+                    if src[i] == "\n":
+                        out.append("\n")
+                    i += 1
+            out.append(" ")
+        elif c == '"':
+            j = i + 1
+            while j < n and src[j] != '"':
+                j += 2 if src[j] == "\\" else 1
+            out.append(src[i:j + 1])
+            i = j + 1
+        elif c == "r" and re.match(r'r#*"', src[i:i + 40]) and (i == 0 or not (src[i - 1].isalnum() or src[i - 1] == "_")):
+            h = re.match(r'r(#*)"', src[i:i + 40]).group(1)
+            j = src.find('"' + h, i + 2 + len(h))
+            j = n if j < 0 else j + 1 + len(h)
+            out.append(src[i:j])
+            i = j
+        elif c == "'":
+            if i + 1 < n and src[i + 1] == "\\":
+                j = src.find("'", i + 3)
+                j = i + 1 if j < 0 else j + 1
+                out.append(src[i:j])
+                i = j
+            elif i + 2 < n and src[i + 2] == "'":
+                out.append(src[i:i + 3])
+                i += 3
+            else:
+                out.append(c)
+                i += 1
+        else:
+            out.append(c)
+            i += 1
+    return "".join(out)
+
+
+def _balanced(src, i):
+    """src[i] == '(' -> text between it and its matching ')'"""
+    depth, j = 0, i
+    while j < len(src):
+        if src[j] == "(":
+            depth += 1
+        elif src[j] == ")":
+            depth -= 1
+            if depth == 0:
+                return src[i + 1:j]
+        elif src[j] == '"':
+            j += 1
+            while j < len(src) and src[j] != '"':
+                j += 2 if src[j] == "\\" else 1
+        j += 1
+    return src[i + 1:]
+
+
+CFG_WORDS_NOT_NAMES = {"all", "any", "not", "cfg", "cfg_attr"}
+
+
+def rust_sources(paths, repo=None):
+    """the .rs files named by `paths` (files, or directories searched recursively), relative to /repo"""
+    repo = repo or REPO
+    out = []
+    for p in paths:
+        full = p if os.path.isabs(p) else os.path.join(repo, p)
+        if os.path.isdir(full):
+            for root, _, fs in os.walk(full):
+                out += [os.path.join(root, f) for f in fs if f.endswith(".rs")]
+        elif os.path.isfile(full):
+            out.append(full)
+    return sorted(set(out))
+
+
+def cfg_dimensions(paths, repo=None):
+    """Compile-time (and run-time-detected) configuration predicates mentioned in the given source files / directories
+    of /repo, comments stripped:
+      target_features   {feature: [file:line how, ..]} from `target_feature = "x"` (cfg / cfg! / cfg_attr / cfg_if /
+                        cfg_select, anywhere), `is_*_feature_detected!("x")`, `#[target_feature(enable = "x,y")]`
+      debug_assertions, overflow_checks   mentioned at all (cfg or cfg!)
+      panic             `panic = "abort|unwind"` values
+      other             every other cfg name / name="value" with its count (feature="alloc", test, target_arch="x86_64", ..)
+      env               env!/option_env! names (configuration read from the build environment)"""
+    repo = repo or REPO
+    d = {"files_scanned": 0, "target_features": {}, "runtime_detected": [], "enable_attr": [], "debug_assertions": [],
+         "overflow_checks": [], "panic": [], "other": {}, "env": []}
+
+    def at(f, src, pos):
+        return "%s:%d" % (os.path.relpath(f, repo), src.count("\n", 0, pos) + 1)
+
+    for f in rust_sources(paths, repo):
+        try:
+            src = strip_rust_comments(open(f, errors="replace").read())
+        except OSError:
+            continue
+        d["files_scanned"] += 1
+        for m in re.finditer(r'\btarget_feature\s*=\s*"([^"]*)"', src):
+            d["target_features"].setdefault(m.group(1).strip(), []).append(at(f, src, m.start()) + " cfg")
+        for m in re.finditer(r'\bis_\w+_feature_detected\s*!\s*\(\s*"([^"]*)"', src):
+            d["target_features"].setdefault(m.group(1).strip(), []).append(at(f, src, m.start()) + " runtime-detected")
+            d["runtime_detected"].append(m.group(1).strip())
+        for m in re.finditer(r'\btarget_feature\s*\(\s*enable\s*=\s*"([^"]*)"', src):
+            for x in m.group(1).split(","):
+                if x.strip():
+                    d["target_features"].setdefault(x.strip(), []).append(at(f, src, m.start()) + " enable-attribute")
+                    d["enable_attr"].append(x.strip())
+        for name in ("debug_assertions", "overflow_checks"):
+            for m in re.finditer(r"\b%s\b" % name, src):
+                d[name].append(at(f, src, m.start()))
+        for m in re.finditer(r'\bpanic\s*=\s*"([^"]*)"', src):
+            d["panic"].append(m.group(1))
+        for m in re.finditer(r'\b(?:option_env|env)\s*!\s*\(\s*"([^"]*)"', src):
+            d["env"].append(m.group(1))
+        for m in re.finditer(r"\b(cfg_attr|cfg)\s*!?\s*\(", src):
+            inner = _balanced(src, m.end() - 1)
+            if m.group(1) == "cfg_attr":
+                # only the predicate (up to the first top-level comma) is configuration
+                depth = 0
+                for k, ch in enumerate(inner):
+                    depth += ch == "("
+                    depth -= ch == ")"
+                    if ch == "," and depth == 0:
+                        inner = inner[:k]
+                        break
+            for n in re.finditer(r'\b([A-Za-z_][A-Za-z0-9_]*)\b(\s*=\s*"([^"]*)")?', inner):
+                name = n.group(1)
+                if name in CFG_WORDS_NOT_NAMES or name in ("target_feature", "debug_assertions", "overflow_checks", "panic"):
+                    continue
+                key = name + ('="%s"' % n.group(3) if n.group(2) else "")
+                d["other"][key] = d["other"].get(key, 0) + 1
+    for k in ("runtime_detected", "enable_attr", "panic", "env"):
+        d[k] = sorted(set(d[k]))
+    for lst in [d["debug_assertions"], d["overflow_checks"]] + list(d["target_features"].values()):
+        if len(lst) > 8:
+            lst[8:] = ["(+%d more)" % (len(lst) - 8)]
+    return d
+
+
+# rustc target-feature name -> the flag /proc/cpuinfo shows for it (where the spelling differs)
+CPUINFO_NAME = {"sse4.2": "sse4_2", "sse4.1": "sse4_1", "sse3": "pni", "lzcnt": "abm", "cmpxchg16b": "cx16", "sha": "sha_ni",
+                "pclmulqdq": "pclmulqdq", "rdrand": "rdrand", "rdseed": "rdseed", "avx512vpopcntdq": "avx512_vpopcntdq",
+                "avx512vnni": "avx512_vnni", "avx512bitalg": "avx512_bitalg", "avx512vbmi2": "avx512_vbmi2", "avx512bf16": "avx512_bf16",
+                "avx512fp16": "avx512_fp16", "xsave": "xsave", "xsaveopt": "xsaveopt", "xsavec": "xsavec", "xsaves": "xsaves"}
+_host = {}
+
+
+def host_features():
+    """(features of the default target, features of `-C target-cpu=native`, /proc/cpuinfo flags or None)"""
+    if not _host:
+        def rustc_cfg(extra):
+            rc, out = sh(["rustc", "--print", "cfg"] + extra)
+            return set(re.findall(r'target_feature="([^"]+)"', out)) if rc == 0 else set()
+        _host["default"] = rustc_cfg([])
+        _host["native"] = rustc_cfg(["-C", "target-cpu=native"])
+        try:
+            m = re.search(r"^(?:flags|Features)\s*:\s*(.*)$", open("/proc/cpuinfo").read(), re.M)
+            _host["cpuinfo"] = set(m.group(1).split()) if m else None
+        except OSError:
+            _host["cpuinfo"] = None
+    return _host["default"], _host["native"], _host["cpuinfo"]
+
+
+def feature_runnable(name):
+    """can code compiled with `+name` run on this machine?  the compiler's view of the host CPU and the kernel's
+    (/proc/cpuinfo) must both say yes (the kernel's only where it is available and the flag name is known)"""
+    default, native, cpuinfo = host_features()
+    if name in default:
+        return True
+    if name not in native:
+        return False
+    if cpuinfo is None:
+        return True
+    flag = CPUINFO_NAME.get(name, name.replace(".", "_").replace("-", "_"))
+    return flag in cpuinfo or name.replace(".", "_") in cpuinfo or name in cpuinfo
+
+
+def variant_target_dir(rustflags):
+    return os.path.join(HARNESS, "target", "tf-" + hashlib.sha256(rustflags.encode()).hexdigest()[:10])
+
+
+def build_variants(ctx, paths, native_quick=True, wider=()):
+    """-> (dims, variants).  variants: dicts {tag, rustflags, release, why} of ADDITIONAL harness builds (beyond the
+    workspace's dev and release profiles) on which a check runs its streams:
+      * one per target feature the scanned files mention, and one with all of them (only features this CPU can run;
+        features the default target already has are covered by the default build), in both profiles;
+      * when debug_assertions / overflow_checks are mentioned: the two mixed settings the dev (both on) and release
+        (both off) profiles do not give;
+      * standing: `-C target-cpu=native`, release profile (quick when native_quick, else thorough only; thorough adds dev).
+    `wider`: further directories scanned for target features only (a SIMD helper module next to the anchored files).
+    Everything found is recorded in coverage.cfg_dimensions; what is mentioned but cannot be varied here is printed as a NOTE."""
+    dims = cfg_dimensions(paths)
+    if wider:
+        w = cfg_dimensions(wider)
+        dims["wider_scan"] = {"paths": list(wider), "files_scanned": w["files_scanned"],
+                              "target_features": {k: v for k, v in w["target_features"].items() if k not in dims["target_features"]}}
+        feats_src = dict(w["target_features"], **dims["target_features"])
+    else:
+        feats_src = dims["target_features"]
+    default, native, _ = host_features()
+    variants, not_runnable, baseline = [], [], []
+    runnable = []
+    for f in sorted(feats_src):
+        if not re.fullmatch(r"[A-Za-z0-9_.\-]+", f):
+            not_runnable.append(f)
+        elif f in default:
+            baseline.append(f)
+        elif feature_runnable(f):
+            runnable.append(f)
+        else:
+            not_runnable.append(f)
+    singles = runnable[:6]
+    for f in singles:
+        for rel in (True, False):
+            variants.append({"tag": "tf+%s-%s" % (f, "release" if rel else "debug"), "rustflags": "-C target-feature=+%s" % f, "release": rel,
+                             "why": "target feature %s mentioned at %s" % (f, ", ".join(feats_src[f][:3]))})
+    if len(runnable) > 1:
+        fl = "-C target-feature=" + ",".join("+" + f for f in runnable)
+        for rel in (True, False):
+            variants.append({"tag": "tf+all-%s" % ("release" if rel else "debug"), "rustflags": fl, "release": rel,
+                             "why": "all mentioned target features together"})
+    if dims["debug_assertions"] or dims["overflow_checks"]:
+        variants.append({"tag": "opt-da_on-oc_off", "rustflags": "-C debug-assertions=on -C overflow-checks=off", "release": True,
+                         "why": "debug_assertions / overflow_checks mentioned: optimised, debug assertions ON, overflow checks off"})
+        variants.append({"tag": "dev-da_off-oc_on", "rustflags": "-C debug-assertions=off -C overflow-checks=on", "release": False,
+                         "why": "debug_assertions / overflow_checks mentioned: unoptimised, debug assertions OFF, overflow checks on"})
+    if native_quick or ctx.tier != "quick":
+        variants.append({"tag": "native-release", "rustflags": "-C target-cpu=native", "release": True,
+                         "why": "standing variant: every target feature of this CPU enabled (%d features beyond the default %d)" % (len(native - default), len(default))})
+        if ctx.tier != "quick":
+            variants.append({"tag": "native-debug", "rustflags": "-C target-cpu=native", "release": False, "why": "standing variant, dev profile"})
+    for v in variants:
+        v["target_dir"] = variant_target_dir(v["rustflags"])
+    not_varied = []
+    if not_runnable:
+        not_varied.append("target features mentioned but not runnable on this CPU: " + ", ".join(not_runnable))
+    if baseline:
+        not_varied.append("target features of the default target (their absence cannot be built): " + ", ".join(baseline))
+    if dims["runtime_detected"]:
+        not_varied.append("run-time detected features (%s): every build runs the side this CPU selects; the other side is not run" % ", ".join(dims["runtime_detected"]))
+    if dims["panic"]:
+        not_varied.append("panic = %s: the harness needs unwinding, panic=abort builds are not run" % "/".join(dims["panic"]))
+    if dims["env"]:
+        not_varied.append("build-environment reads (env!/option_env!): " + ", ".join(dims["env"]))
+    arch = sorted(k for k in dims["other"] if k.startswith(("target_arch", "target_os", "target_pointer_width", "target_endian", "target_env", "target_vendor", "target_family", "target_abi", "target_has_atomic", "unix", "windows")))
+    if arch:
+        not_varied.append("target predicates (only this host's target x86_64-unknown-linux-gnu is built): " + ", ".join(arch))
+    dims["not_varied"] = not_varied
+    dims["variants"] = [{k: v[k] for k in ("tag", "rustflags", "release", "why")} for v in variants]
+    dims["profiles"] = "dev (debug_assertions + overflow_checks on, opt-level 0) and release (both off, opt-level 2) always"
+    ctx.extra["cfg_dimensions"] = dims
+    ctx.assumptions.append(
+        "the model has no notion of build configuration (profile, target features, cfg predicates — it is ONE body): that the source behaves "
+        "like the model however it is built is established, by running the same streams and oracles, for exactly these builds: dev profile "
+        "(debug_assertions and overflow checks on), release profile (both off)%s.  Scanned for configuration predicates: %s%s; found: target features {%s}, "
+        "debug_assertions %s, overflow_checks %s, other cfg names {%s} (coverage.cfg_dimensions).  NOT covered: %s" % (
+            "".join(", %s (RUSTFLAGS='%s', %s)" % (v["tag"], v["rustflags"], "release" if v["release"] else "dev") for v in variants),
+            ", ".join(paths), (" and, for target features only, " + ", ".join(wider)) if wider else "",
+            ", ".join(sorted(feats_src)) or "none", "mentioned" if dims["debug_assertions"] else "not mentioned",
+            "mentioned" if dims["overflow_checks"] else "not mentioned", ", ".join(sorted(dims["other"])) or "none",
+            "; ".join(not_varied + ["any target other than this host's x86_64-unknown-linux-gnu; cargo feature sets other than the harness's; "
+                                    "code selected by a target feature this scan did not see (e.g. inside a dependency or generated by a macro) beyond what -C target-cpu=native enables"])))
+    ctx.trusted.append("rustc --print cfg (default and -C target-cpu=native) and /proc/cpuinfo decide which target features can run on this machine")
+    for nv in not_varied:
+        ctx.log("NOTE cfg dimension not varied: " + nv)
+    if [v for v in variants if not v["tag"].startswith("native")]:
+        ctx.log("cfg dimensions: extra build variants " + ", ".join(v["tag"] for v in variants))
+    return dims, variants
+
+
+def variant_build(ctx, pkg, v, **kw):
+    """build `pkg` of the harness workspace as variant v -> (exe, err, how)"""
+    exe, err = cargo_build(ctx, pkg, release=v["release"], rustflags=v["rustflags"], target_dir=v["target_dir"], label=v["tag"], **kw)
+    how = "cd %s && RUSTFLAGS='%s' CARGO_TARGET_DIR=%s cargo build --offline -p %s%s" % (
+        kw.get("workspace", HARNESS), v["rustflags"], v["target_dir"], pkg, " --release" if v["release"] else "")
+    return exe, err, how
 
 
 def run_filter(cmd, lines, timeout=600, cwd=None, env=None):
@@ -388,14 +688,26 @@ def run_filter(cmd, lines, timeout=600, cwd=None, env=None):
     return p.returncode, p.stdout.splitlines(), p.stderr
 
 
-def correspond(ctx, name, cases, impl_cmd, model_cmd, judge, sig_of=None, timeout=900, env=None):
+def correspond(ctx, name, cases, impl_cmd, model_cmd, judge, sig_of=None, timeout=900, env=None, variant=None, model_cache=None):
     """Run implementation and model on the same case lines and compare line by line.
     judge(case, impl_out) -> None if the implementation's output satisfies the property's own
     spec for that case, else a short reason (an implementation-vs-spec failure).
     A disagreement where the implementation satisfies the spec is a model/correspondence break
-    (reported with no-failing-input-found unless some other case fails the spec)."""
+    (reported with no-failing-input-found unless some other case fails the spec).
+    variant: {tag, rustflags, how} when impl_cmd is a build variant of the harness (build_variants): the tag becomes part of
+    the failure signature, the build command (with its RUSTFLAGS) part of how_to_replay.
+    model_cache: dict shared by the runs of one check; the model's answers to an identical list of lines are reused (the
+    model has no build configuration: the variants are compared with the very same model output)."""
     rc_i, impl, err_i = run_filter(impl_cmd, cases, timeout=timeout, env=env)
-    rc_m, model, err_m = run_filter(model_cmd, cases, timeout=timeout)
+    key = None
+    if model_cache is not None:
+        key = (tuple(model_cmd), len(cases), hashlib.sha256("\n".join(cases).encode()).hexdigest())
+    if key is not None and key in model_cache:
+        rc_m, model, err_m = model_cache[key]
+    else:
+        rc_m, model, err_m = run_filter(model_cmd, cases, timeout=timeout)
+        if key is not None and len(model) == len(cases):
+            model_cache[key] = (rc_m, model, err_m)
     ctx.evaluations += len(cases)
     st = ctx.extra.setdefault("streams", {})
     st[name] = {"cases": len(cases), "disagreements": 0, "spec_failures": 0}
@@ -404,7 +716,8 @@ def correspond(ctx, name, cases, impl_cmd, model_cmd, judge, sig_of=None, timeou
         idx = len(impl)
         ctx.violation({"stream": name, "kind": "impl-crash", "case": cases[idx] if idx < len(cases) else "?"},
                       {"stream": name, "case_index": idx, "case": cases[idx] if idx < len(cases) else None,
-                       "impl_rc": rc_i, "stderr_tail": err_i.splitlines()[-5:]})
+                       "impl_rc": rc_i, "stderr_tail": err_i.splitlines()[-5:], "build_variant": variant,
+                       "how_to_replay": "%secho '%s' | %s" % ((variant["how"] + " && ") if variant else "", cases[idx] if idx < len(cases) else "", " ".join(impl_cmd))})
         return False
     if len(model) != len(cases):
         ctx.broken.append({"driver_failed": name, "rc": rc_m, "stderr": err_m.splitlines()[-5:]})
@@ -423,15 +736,25 @@ def correspond(ctx, name, cases, impl_cmd, model_cmd, judge, sig_of=None, timeou
     st[name]["spec_failures"] = len(spec_fail)
     for (i, c, a, b, why) in spec_fail[:50]:
         sig = sig_of(c, a, why) if sig_of else {"stream": name, "case": c}
-        ctx.violation(sig, {"stream": name, "case_index": i, "case": c, "implementation": a, "model": b, "why": why,
-                            "how_to_replay": "echo '%s' | %s" % (c, " ".join(impl_cmd))})
+        rp = {"stream": name, "case_index": i, "case": c, "implementation": a, "model": b, "why": why,
+              "how_to_replay": "echo '%s' | %s" % (c, " ".join(impl_cmd))}
+        if variant:
+            # a failure class the standard builds already showed is not specific to the variant: one report is enough
+            # (nor is a second variant showing the class the first variant showed)
+            if any({k: x for k, x in v[0].items() if k != "variant"} == sig for v in ctx.violations):
+                continue
+            # the failure belongs to ONE way of building the same source: name it, and say how to build it
+            sig = dict(sig, variant=variant["tag"])
+            rp["build_variant"] = {"tag": variant["tag"], "RUSTFLAGS": variant["rustflags"], "profile": "release" if variant.get("release") else "dev"}
+            rp["how_to_replay"] = variant["how"] + " && " + rp["how_to_replay"]
+        ctx.violation(sig, rp)
     if disagree and not spec_fail:
         (i, c, a, b) = disagree[0]
         ctx.broken.append({"correspondence": name, "first_disagreement": {"case": c, "implementation": a, "model": b},
                            "count": len(disagree)})
         ctx.violation({"stream": name, "kind": "model-disagreement"},
                       {"broken_correspondence": name, "first_disagreement": {"case_index": i, "case": c, "implementation": a, "model": b},
-                       "count": len(disagree),
+                       "count": len(disagree), "build_variant": variant,
                        "note": "implementation output satisfies the spec oracle on every explored case; the model no longer describes the code"},
                       no_input=True)
     return not disagree and not spec_fail
